@@ -37,8 +37,8 @@ assignment of per-call behaviours and every order in which the shards answer: `S
 only when some shard has no replica at all), or - see `Honest` - the returned IDs are page `[offset, offset+size)`
 of the unique strictly ordered merge over exactly the shards that had an answering replica of the tier that was
 consulted, each ID attributed to a replica that returned it; the result is unflagged iff every shard of that tier
-answered, a flagged result still has an answering shard, and the read stores are consulted only after a hot shard
-declared the range too old. -/
+answered, a flagged result still has an answering shard, a result without store-reported errors means no answering
+replica reported one, and the read stores are consulted only after a hot shard declared the range too old. -/
 theorem c16_outcome (hot cold : List (List Call)) (hotArr coldArr : List (Nat × ShardRes))
     (hh : hotArr.Perm (indexed 0 (hot.map searchShard))) (hc : coldArr.Perm (indexed 0 (cold.map searchShard)))
     (offset size : Nat) (rev : Bool) :
@@ -58,7 +58,7 @@ theorem c16_outcome (hot cold : List (List Call)) (hotArr coldArr : List (Nat ×
   | data qs p =>
     have hf := tier_facts hot hotArr hh qs p hH offset size rev
     simp only [finish, Honest, Bool.false_eq_true, if_false]
-    exact ⟨hf.1, hf.2.1, hf.2.2.1, hf.2.2.2, by simp⟩
+    exact ⟨hf.1, hf.2.1, hf.2.2.1, hf.2.2.2.1, hf.2.2.2.2, by simp⟩
   | err k =>
     cases k with
     | tmf => simp [finish, Honest]
@@ -76,10 +76,84 @@ theorem c16_outcome (hot cold : List (List Call)) (hotArr coldArr : List (Nat ×
         | data qs p =>
           have hf := tier_facts cold coldArr hc qs p hC offset size rev
           simp only [finish, Honest, if_true]
-          refine ⟨hf.1, hf.2.1, hf.2.2.1, hf.2.2.2, fun _ => ?_⟩
+          refine ⟨hf.1, hf.2.1, hf.2.2.1, hf.2.2.2.1, hf.2.2.2.2, fun _ => ?_⟩
           obtain ⟨e, he, hw⟩ := storesLoop_wod _ _ _ _ hH
           obtain ⟨calls, h1, h2⟩ := (mem_arrival hh e.1 e.2).mp he
           exact ⟨calls, mem_tier_of_getElem? h1, by rw [h2, hw]⟩
+
+/-- **C16 (it does degrade, and only as far as needed).**  When no hot shard refuses (wants-old-data,
+too-many-fractions) and every shard has a replica: all shards answer => a complete result; some answer and some do
+not => a result flagged partial; none answers => an error.  Whatever the arrival order. -/
+theorem c16_degrades (hot : List (List Call)) (hotArr coldArr : List (Nat × ShardRes))
+    (hh : hotArr.Perm (indexed 0 (hot.map searchShard)))
+    (hn : ∀ calls ∈ hot, searchShard calls ≠ .wod ∧ searchShard calls ≠ .tmf ∧ calls ≠ [])
+    (offset size : Nat) (rev : Bool) :
+    ((∀ calls ∈ hot, (searchShard calls).isOk = true) →
+      ∃ ids t e, search hotArr coldArr offset size rev = .ok ids t e false false) ∧
+    ((∃ calls ∈ hot, (searchShard calls).isOk = true) → (∃ calls ∈ hot, (searchShard calls).isOk = false) →
+      ∃ ids t e, search hotArr coldArr offset size rev = .ok ids t e true false) ∧
+    ((∃ calls ∈ hot, True) → (∀ calls ∈ hot, (searchShard calls).isOk = false) →
+      ∃ k, search hotArr coldArr offset size rev = .err k) := by
+  have hsc : ∀ e ∈ hotArr, e.2 ≠ .wod ∧ e.2 ≠ .tmf ∧ e.2 ≠ .nilResp := by
+    intro e he
+    obtain ⟨calls, h1, h2⟩ := (mem_arrival hh e.1 e.2).mp he
+    have := hn calls (mem_tier_of_getElem? h1)
+    refine ⟨by rw [← h2]; exact this.1, by rw [← h2]; exact this.2.1, ?_⟩
+    intro h
+    rw [h] at h2
+    exact this.2.2 (searchShardGo_nil _ _ _ h2).1
+  have hloop := storesLoop_noSC hotArr [] 0 false hsc
+  simp only [List.nil_append, Nat.zero_add] at hloop
+  have okMem : (∃ calls ∈ hot, (searchShard calls).isOk = true) → oks hotArr ≠ [] := by
+    rintro ⟨calls, hc, hok⟩
+    obtain ⟨s, hs⟩ := List.getElem?_of_mem hc
+    cases hr : searchShard calls with
+    | ok rep l t e =>
+      have : (⟨(s, rep), l, t, e⟩ : QPR) ∈ oks hotArr := mem_oks.mpr ((mem_arrival hh s _).mpr ⟨calls, hs, hr⟩)
+      intro hnil; rw [hnil] at this; simp at this
+    | _ => rw [hr] at hok; simp [ShardRes.isOk] at hok
+  have badMem : (∃ calls ∈ hot, (searchShard calls).isOk = false) → 0 < nbad hotArr := by
+    rintro ⟨calls, hc, hbad⟩
+    obtain ⟨s, hs⟩ := List.getElem?_of_mem hc
+    have hm : (s, searchShard calls) ∈ hotArr := (mem_arrival hh s _).mpr ⟨calls, hs, rfl⟩
+    have h3 := hsc _ hm
+    apply nbad_pos.mpr
+    refine ⟨_, hm, ?_⟩
+    cases hr : searchShard calls <;> simp_all [ShardRes.isOk]
+  refine ⟨fun hall => ?_, fun hsome hbad => ?_, fun hne hnone => ?_⟩
+  · have hz : nbad hotArr = 0 := by
+      rcases Nat.eq_zero_or_pos (nbad hotArr) with h | h
+      · exact h
+      · obtain ⟨e, he, hb⟩ := nbad_pos.mp h
+        obtain ⟨calls, h1, h2⟩ := (mem_arrival hh e.1 e.2).mp he
+        have := hall calls (mem_tier_of_getElem? h1)
+        rw [h2] at this
+        rcases hb with hb | hb <;> simp [hb, ShardRes.isOk] at this
+    have := hloop.2 hz
+    unfold search searchStores
+    rw [this]
+    exact ⟨_, _, _, rfl⟩
+  · have := (hloop.1 (badMem hbad)).1 (okMem hsome)
+    unfold search searchStores
+    rw [this]
+    exact ⟨_, _, _, rfl⟩
+  · have hnil : oks hotArr = [] := by
+      cases ho : oks hotArr with
+      | nil => rfl
+      | cons q _ =>
+        have : q ∈ oks hotArr := by rw [ho]; exact List.mem_cons_self
+        obtain ⟨calls, h1, h2⟩ := (mem_arrival hh _ _).mp (mem_oks.mp this)
+        have := hnone calls (mem_tier_of_getElem? h1)
+        rw [h2] at this; simp [ShardRes.isOk] at this
+    obtain ⟨calls, hc, _⟩ := hne
+    obtain ⟨k, hk, hk1, hk2⟩ := (hloop.1 (badMem ⟨calls, hc, hnone calls hc⟩)).2 hnil
+    unfold search searchStores
+    rw [hk]
+    cases k with
+    | wod => exact absurd rfl hk1
+    | tmf => exact ⟨_, rfl⟩
+    | tmu => exact ⟨_, rfl⟩
+    | other => exact ⟨_, rfl⟩
 
 /-- the merged result `c16_outcome` speaks of is unique, so "the correct top" is well defined -/
 theorem c16_top_unique (rev : Bool) (P : List ProxySearch.ID → Prop) (f g : List ProxySearch.ID)
@@ -279,6 +353,61 @@ theorem c16_response_aligned (hot cold : List (Nat × ShardRes)) (offset size : 
     · injection h with h1 h2 h3 h4 h5 h6
       exact Or.inl h6.symm
 
+/-- **C16 (what the client sees).**  `proxyapi`'s Search presents a result as complete (error code NO, partial flag
+off) only if every shard of the consulted tier had an answering replica and none of the answering stores reported
+an internal error; it then carries one document slot per ID. -/
+theorem c16_api_honest (hot cold : List (List Call)) (hotArr coldArr : List (Nat × ShardRes))
+    (hh : hotArr.Perm (indexed 0 (hot.map searchShard))) (hc : coldArr.Perm (indexed 0 (cold.map searchShard)))
+    (offset size : Nat) (rev : Bool) (hint : Nat) (order : List Nat) (behav : Nat → Option (List Ev))
+    (ids : List ProxySearch.ID) (docs : List Nat) (total : Nat)
+    (h : api (searchAndFetch hotArr coldArr offset size rev hint true order behav) = .resp ids docs false total) :
+    (∃ tier, (tier = hot ∨ tier = cold) ∧ ∀ calls ∈ tier, ∃ rep l t, searchShard calls = .ok rep l t 0) ∧
+      docs.length = ids.length := by
+  have hlen : ∀ (n : Nat) (ds : List Doc), (protoDocs n ds).length = n := by
+    intro n
+    induction n with
+    | zero => intro ds; simp [protoDocs]
+    | succ n ih => intro ds; cases ds <;> simp [protoDocs, ih]
+  cases hf : searchAndFetch hotArr coldArr offset size rev hint true order behav with
+  | err k => rw [hf] at h; cases k <;> simp [api] at h
+  | panic => rw [hf] at h; simp [api] at h
+  | fetchErr => rw [hf] at h; simp [api] at h
+  | ok ids' t e p c docs' =>
+    rw [hf] at h
+    simp only [api] at h
+    have hsearch : search hotArr coldArr offset size rev = .ok ids' t e p c := by
+      unfold searchAndFetch at hf
+      cases hs : search hotArr coldArr offset size rev with
+      | err k => rw [hs] at hf; cases hf
+      | panic => rw [hs] at hf; cases hf
+      | ok a b c' d e' =>
+        rw [hs] at hf
+        simp only at hf
+        split at hf
+        · split at hf <;> cases hf <;> rfl
+        · cases hf; rfl
+    have hon := c16_outcome hot cold hotArr coldArr hh hc offset size rev
+    rw [hsearch] at hon
+    cases p with
+    | true => simp at h
+    | false =>
+      simp only [Bool.false_eq_true, if_false] at h
+      split at h
+      · cases h
+      · rename_i hne
+        injection h with h1 h2 h3 h4
+        have he : e = 0 := by omega
+        subst he
+        refine ⟨⟨if c = true then cold else hot, by cases c <;> simp, ?_⟩, by rw [← h2, ← h1]; simp [hlen]⟩
+        intro calls hcalls
+        have hok := hon.2.2.1.mp rfl calls hcalls
+        cases hr : searchShard calls with
+        | ok rep l t' e' =>
+          have := hon.2.2.2.2.1 rfl calls hcalls rep l t' e' hr
+          subst this
+          exact ⟨rep, l, t', rfl⟩
+        | _ => rw [hr] at hok; simp [ShardRes.isOk] at hok
+
 /-- `uniqueIDIterator` (the `Documents` path): one item per run of equal IDs, each item is one the inner iterator
 yielded, and a run that contains a non-empty document is represented by a non-empty one -/
 theorem c16_unique (l : List Doc) :
@@ -347,6 +476,12 @@ theorem c16_x_less_and_ff :
     ffCond = ["m.nextErr == nil && m.less(m.nextDoc.IDSource(), currentID) ; m.loadNextDoc()"] ∧
     notFoundCond = ["m.nextErr != nil || !currentID.Equal(m.nextDoc.IDSource())"] := by decide
 
+/-- the API layer: too-many-fractions is parsed first, then partial, then `processSearchErrors`, which turns
+store-reported errors of an otherwise clean answer into codes.Internal (the order `SV.ProxyRead.api` models) -/
+theorem c16_x_api_shape :
+    doSearchOrder = ["g.searchIngestor.Search", "parseProxyError", "errors.Is(err, consts.ErrPartialResponse)", "processSearchErrors"] ∧
+    apiStoreErrorsCond = ["err == nil && len(qpr.Errors) > 0"] := by decide
+
 /-! ## Non-vacuity -/
 
 /-- 2 hot shards, shard 1 answers on its second replica, shard 0 on its first: complete, merged, paginated -/
@@ -369,6 +504,11 @@ example :
 example : (∃ calls ∈ [[Call.resp .none [(9, 1)] 1 0], [Call.fail, Call.failWod]], searchShard calls = .wod) ∧
     (∀ calls ∈ [[Call.resp .none [(9, 1)] 1 0], [Call.fail, Call.failWod]], searchShard calls ≠ .tmf ∧ calls ≠ []) := by
   decide
+
+/-- the hypotheses of `c16_degrades` are met by a topology in which one shard answers on its second replica, one
+is silent and one reports too-many-unique-values -/
+example : ∀ calls ∈ [[Call.fail, Call.resp .none [(9, 1)] 1 0], [Call.fail, Call.fail], [Call.resp .tmu [] 0 0]],
+    searchShard calls ≠ .wod ∧ searchShard calls ≠ .tmf ∧ calls ≠ [] := by decide
 
 /-- three sources, one stream truncated, one carrying an unrequested and a repeated document, hints present -/
 example :
